@@ -323,6 +323,11 @@ pub fn replay_history<S: Spec>(spec: &S, init: usize, hist: &[S::Op]) -> Result<
     let inits = spec.inits();
     let (_l, mut sut, mut m) = inits.into_iter().nth(init).ok_or("bad init index")?;
     let mut softs: Vec<String> = vec![];
+    // an initial machine can break an invariant by itself (its construction goes through the
+    // subject too): the recorded history is then empty
+    if let Some(d) = spec.invariants(&sut, &m).into_iter().next() {
+        return Err(d.key);
+    }
     for op in hist {
         let mut soft: Vec<Divergence> = vec![];
         let r = crate::emu::guarded(|| spec.apply(&mut sut, &m, op, &mut soft));
